@@ -154,7 +154,8 @@ def run(ctx):
   maxsize = 6 if thorough else 5
   ctx.rule = ("exhaustive: every labelled multiset (both labels present) of size <= %d over integer distances {0,1,2,3} "
               "(ties, conflicting duplicates, zero distance), in a random order, x {accuracy, f_beta (beta in 0, 1/2, 1, 2), "
-              "max_tpr and max_tnr (min_rate in 0, 1/4, 1/2, 3/4, 1)}; plus random multisets up to size 40 with heavy ties. "
+              "max_tpr and max_tnr (min_rate in 0, 1/4, 1/2, 3/4, 1)}; plus random multisets up to size 40 with heavy ties; plus multisets of distinct but almost tied distances "
+              "(gaps 2^-40 relative .. 2^-31 absolute). "
               "threshold_ of the implementation compared exactly with the Coq model evaluated on rationals (f_beta: value of "
               "the criterion at the implementation's threshold vs. the model's optimum). non-trivial = at least two distinct "
               "distances; distinct = distinct (strategy, parameter, ordered data)." % maxsize)
@@ -202,6 +203,16 @@ def run(ctx):
     y = np.where(rng.random(n) < rng.uniform(0.2, 0.8), 1, -1)
     y[0], y[1] = 1, -1
     add(dist, y, k)
+    k += 1
+  # distinct distances that are almost tied (relative gap 2^-40 .. 2^-21, absolute gap 2^-31): a cut between them is realisable
+  near = np.array([0.0, 2.0 ** -31, 2.0 ** -30, 1.0, 1 + 2.0 ** -30, 1 + 2.0 ** -21, 2.0, 2 * (1 + 2.0 ** -40), 3.0])
+  for _ in range(200 if thorough else 40):
+    n = int(rng.integers(3, 11))
+    dist = near[rng.integers(0, len(near), size=n)]
+    y = np.where(rng.random(n) < 0.5, 1, -1)
+    y[0], y[1] = 1, -1
+    add(dist, y, k)
+    ctx.hist('stream', 'near_ties')
     k += 1
   ctx.sample(dict(dist=recs[0]['dist'].tolist(), y=recs[0]['y'].tolist(), strategy=recs[0]['strategy'], impl_threshold=recs[0]['thr']))
   ctx.sample(dict(dist=recs[-1]['dist'].tolist(), y=recs[-1]['y'].tolist(), strategy=recs[-1]['strategy'],
